@@ -545,9 +545,9 @@ def rule_d(ctx):
 
 
 def run(ctx):
-    rule_ab(ctx)
-    rule_c(ctx)
-    rule_d(ctx)
+    ctx.guard(rule_ab, ctx)
+    ctx.guard(rule_c, ctx)
+    ctx.guard(rule_d, ctx)
     # a physical box is turned into a voxel box by CoordinateSystem.voxel / coordinate: the placement clauses rest on those maps
     from . import c01
     from .common import shared
